@@ -168,14 +168,17 @@ pub fn oracle_c01(scn: &E2Scn, d: &D2, stats: &mut Stats) -> Vec<Violation> {
         let urgent = prio == 3;
         let empty = scn.producers.iter().flatten().any(|s| matches!(s.kind, PKind::Send { id: i, empty: true, .. } if i == *id));
         let verdict = scn.verdict(*id);
-        let flips = scn.flip_ids.contains(id) && !urgent && !empty;
+        let flips = (scn.flip_ids.contains(id) || (scn.default_filterer_first && verdict != 0)) && !urgent && !empty;
         // an event whose verdict depends on the filterer in place: each accepted occurrence is owed (or not) according to
         // the filterer installed when it entered the queue (the scenarios keep replacements and sends seconds apart)
         let owed_n = if flips {
             stats.hit("probe:verdict-changed-by-filterer-replacement");
             let mut n = 0;
             for (_, seq, ok) in d.sent.get(id).into_iter().flatten() {
-                if *ok && *seq < stop_seq && d.filter_replaced.iter().filter(|r| **r < *seq).count() % 2 == 1 {
+                let gen = d.filter_replaced.iter().filter(|r| **r < *seq).count() as u32;
+                // (before the first installation the default filterer is in place: everything passes)
+                let accepted = if scn.default_filterer_first && gen == 0 { true } else { scn.verdict_gen(*id, gen) == 0 };
+                if *ok && *seq < stop_seq && accepted {
                     n += 1;
                 }
             }
@@ -197,9 +200,9 @@ pub fn oracle_c01(scn: &E2Scn, d: &D2, stats: &mut Stats) -> Vec<Violation> {
                 ));
             } else if got > *n_acc {
                 vs.push(Violation::new(
-                    "event-delivered-twice",
-                    &format!("prio={prio}"),
-                    format!("event {id} was accepted {n_acc}x but appeared in {got} batches"),
+                    if flips { "rejected-event-delivered" } else { "event-delivered-twice" },
+                    &format!("prio={prio}{}", if flips { " around-filterer-replacement" } else { "" }),
+                    format!("event {id} was owed to the handler {n_acc}x but appeared in {got} batches"),
                 ));
             }
         } else if got > 0 {
@@ -559,6 +562,18 @@ pub fn gen_filter_replaced(rng: &mut Rng) -> E2Scn {
             verdicts.push((60 + ph as u32, 1));
         }
     }
+    // half of the time Watchexec starts with its default filterer and the first installation happens at run time: the
+    // re-sent events are then rejected by plain verdicts instead of flipping ones
+    let default_first = rng.chance(1, 2);
+    let mut flip_ids: Vec<u32> = ids.iter().map(|i| i.0).collect();
+    if default_first {
+        for (id, _) in &ids {
+            if rng.chance(2, 3) {
+                verdicts.push((*id, 1));
+            }
+        }
+        flip_ids.clear();
+    }
     E2Scn {
         family: "filter-replaced".into(),
         throttle,
@@ -566,7 +581,8 @@ pub fn gen_filter_replaced(rng: &mut Rng) -> E2Scn {
         handler_durs: vec![*rng.pick(&[0u64, 1, 20])],
         producers: vec![steps],
         verdicts,
-        flip_ids: ids.iter().map(|i| i.0).collect(),
+        flip_ids,
+        default_filterer_first: default_first,
         probe: true,
         ..Default::default()
     }
@@ -1657,12 +1673,23 @@ pub fn gen_quit(rng: &mut Rng) -> E2Scn {
         }
     }
     s.quit = Some(QuitPlan { at_batch: quit_batch, graceful });
+    // while the worker waits out the grace period, the watcher backend reports an error that the error handler escalates:
+    // main ends with that critical error in the middle of the quit
+    let escalate_mid_quit = matches!(graceful, Some((_, g)) if g >= 100) && rng.chance(1, 4);
+    if escalate_mid_quit {
+        s.init_paths = vec![(0, true)];
+        s.err_plan = if rng.chance(1, 2) { ErrPlan { elevate_at: Some(0), ..Default::default() } } else { ErrPlan { critical_at: Some(0), ..Default::default() } };
+    }
     // events that produce batches 0..=quit_batch, spaced so that jobs are caught at different points
     let mut steps = Vec::new();
     for b in 0..=quit_batch + 1 {
         steps.push(PStep { gap: if b == 0 { 0 } else { *rng.pick(&[1u64, 3, 20, 60, 400]) }, kind: PKind::Send { id: 10 + b, prio: 3, empty: false } });
     }
     s.producers = vec![steps];
+    if escalate_mid_quit {
+        // (the quit batch is sent 400 ms into the run at the latest; the error arrives some time after that)
+        s.producers.push(vec![PStep { gap: *rng.pick(&[30u64, 450, 900, 1500]), kind: PKind::FsErr { tag: 77 } }]);
+    }
     s.handler_async = rng.chance(1, 3);
     if s.handler_async {
         s.handler_durs = vec![*rng.pick(&[0u64, 2, 30])];
@@ -1736,8 +1763,15 @@ pub fn oracle_c08(scn: &E2Scn, d: &D2, out: &RunOut, stats: &mut Stats) -> Vec<V
         remaining_max = remaining_max.max(rem);
     }
     let _ = &ed;
+    // an error escalated by the error handler while the quit is in progress ends main with that critical error instead:
+    // the quit's own timing is then moot, what must still hold is that nothing is left behind
+    let escalated = d.err_actions.iter().any(|a| a.1 == "elevate" || a.1 == "critical");
+    if escalated {
+        stats.hit("probe:critical-error-while-quitting");
+    }
     match &d.main_end {
         None => vs.push(Violation::new("quit-never-terminates", manner, format!("{manner} quit requested at t={} but main never ended", q.0))),
+        Some(_) if escalated => {}
         Some((mt, _, ok, msg)) => {
             if !*ok {
                 vs.push(Violation::new("quit-returned-error", manner, format!("main ended with {msg}")));
@@ -1805,6 +1839,15 @@ pub fn oracle_c08(scn: &E2Scn, d: &D2, out: &RunOut, stats: &mut Stats) -> Vec<V
             vs.push(Violation::new("process-survives-shutdown", manner, format!("child {c} of job {job} was still alive after main ended and the runtime was shut down")));
         }
     }
+    // ... and nothing outlives the main task itself: however main ends (quit, critical error), the job tasks are aborted or
+    // joined by then and their processes killed (kill-on-drop), not merely left to the runtime's own shutdown
+    if let Some((mt, _, _, _)) = &d.main_end {
+        for (k, c) in ed.children.iter().enumerate() {
+            if c.spawn_seq > 0 && c.spawn_t <= *mt && c.exit.map(|e| e.0 > *mt).unwrap_or(true) {
+                vs.push(Violation::new("process-outlives-main", manner, format!("child {k} was still alive when main ended at t={mt} (exit: {:?})", c.exit)));
+            }
+        }
+    }
     // what `list_jobs()` showed each invocation of the handler: every job created by an earlier invocation that nothing
     // ever deletes (the worker holds its handle: it cannot die), and nothing that was never created
     for r in &out.hist {
@@ -1831,8 +1874,9 @@ pub fn oracle_c08(scn: &E2Scn, d: &D2, out: &RunOut, stats: &mut Stats) -> Vec<V
             }
         }
     }
-    // after a graceful quit of a grouped command every member of the group is dead
-    if qp.graceful.is_some() {
+    // after a graceful quit of a grouped command every member of the group is dead (a quit cut short by a critical error
+    // is an abort: kill-on-drop reaches the leader only)
+    if qp.graceful.is_some() && !escalated {
         for r in &out.hist {
             if let Ev::Note { what: "group-members-alive", a, b } = &r.ev {
                 stats.hit("probe:grouped-command-with-grandchildren");
@@ -1945,6 +1989,7 @@ impl Check for C08 {
             "probe:quit-with-deleted-job",
             "probe:grouped-command-with-grandchildren",
             "probe:list-jobs-judged",
+            "probe:critical-error-while-quitting",
             "probe:cli-grouped-command-with-grandchildren",
             "probe:cli-ungrouped-command-with-grandchildren",
             "probe:cli-quit",
